@@ -49,27 +49,27 @@ class FrpProp(Prop):
 
     spec_is_oracle = True
 
+    def run_model(self, batch, scripts, iout, shards=C.NPROC):
+        """guided run of the specification: each line carries the implementation's observation, so that
+        among the allowed orders of deferred transactions the one the implementation took is followed"""
+        guided = []
+        for name, lines in scripts:
+            io = strip_ann(iout.get(name, []))
+            guided.append((name, ["%s || %s" % (l, io[k]) if k < len(io) else l for k, l in enumerate(lines)]))
+        return C.run_sharded(C.MODEL_RUN, "frp-check", guided, batch.timeout, shards)
+
     def agree(self, batch, name, lines, mout, io):
         io2 = strip_ann(io)
-        if getattr(self, "_alt_src", None) is not mout:
-            idx = {}
-            for k, v in mout.items():
-                idx.setdefault(k.split("@", 1)[0], []).append((k, v))
-            for k in idx:
-                idx[k].sort(key=lambda kv: (len(kv[0]), kv[0]))
-            self._alt_src, self._alt_idx = mout, idx
-        alts = [v for _, v in self._alt_idx.get(name, [])]
-        if not alts:
+        mo = mout.get(name)
+        if mo is None:
             return "no specification output"
-        if any("illegal" in x for x in alts[0]):
+        if any("illegal" in x for x in mo):
             return None     # not a legal program (instantaneous cycle): nothing is specified
-        if io2 in alts:
+        if io2 == mo:
             return None
-        mo = alts[0]
         k = next((j for j, (x, y) in enumerate(zip(mo, io2)) if x != y), min(len(mo), len(io2)))
-        return "line %d (%s): specified %r%s, observed %r" % (
+        return "line %d (%s): specified %r (or another allowed order of deferred transactions, none of which matches), observed %r" % (
             k + 1, lines[k] if k < len(lines) else "?", mo[k] if k < len(mo) else None,
-            " (or %d other allowed orders of deferred transactions)" % (len(alts) - 1) if len(alts) > 1 else "",
             io2[k] if k < len(io2) else None)
 
     def nontrivial(self, batch, name, lines, out):
@@ -85,3 +85,107 @@ class C02(FrpProp):
     profile = Profile(w=dict(map=10, map_to=3, filter=6, filter_opt=3, gate=4, merge=10, or_else=4, snapshot=8, snapshot1=2,
                              once=4, hold=5, csink=3, sink=5, sink_co=2, const=2, never=1, map_c=2, lift=2),
                       p_def_in_txn=0.1, n_defs=(4, 14))
+
+
+W_ALL = dict(map=8, filter=4, merge=8, or_else=3, snapshot=6, gate=3, once=2, hold=8, updates=3, value=3,
+             map_c=6, lift=6, accum=4, collect=3, filter_opt=2, map_to=2, snapshot1=2, const=2, never=1, csink=3,
+             sink=4, sink_co=2)
+
+
+def W(**kw):
+    d = dict(W_ALL)
+    d.update(kw)
+    return d
+
+
+class C01(FrpProp):
+    pid = "C01"
+    tag = "c01"
+    profile = Profile(w=W(), p_block=0.8, p_nested=0.3, p_scoped=0.25, p_def_in_txn=0.3, p_listen_late=0.5,
+                      p_unlisten=0.2, n_txn=(4, 12))
+
+
+class C04(FrpProp):
+    pid = "C04"
+    tag = "c04"
+    profile = Profile(w=W(hold=12, accum=8, collect=6, snapshot=10, csink=5, hold_lazy=3, accum_lazy=2, gate=4),
+                      p_sample=0.7, p_def_in_txn=0.25, n_txn=(5, 20), p_listen_late=0.2)
+
+
+class C05(FrpProp):
+    pid = "C05"
+    tag = "c05"
+    profile = Profile(w=W(switch_s=10, switch_c=10, hold=8, map_c=6), n_defs=(5, 14), n_txn=(5, 16), p_block=0.7,
+                      p_sample=0.5)
+
+
+class C10(FrpProp):
+    pid = "C10"
+    tag = "c10"
+    profile = Profile(w=W(), p_listen_late=0.8, p_unlisten=0.5, listen_cells=0.5, p_block=0.6, p_mem=0.2, weak=0.0,
+                      n_txn=(5, 14))
+
+
+class C11(FrpProp):
+    pid = "C11"
+    tag = "c11"
+    profile = Profile(w=W(sloop=8, cloop=8, hold=10, snapshot=8), n_defs=(4, 10), n_txn=(4, 12))
+
+
+class C12(FrpProp):
+    pid = "C12"
+    tag = "c12"
+    profile = Profile(w=W(defer=8, split=6, hold=10, snapshot=8), p_post=0.3, n_defs=(5, 12), n_txn=(4, 10))
+
+
+class C13(FrpProp):
+    pid = "C13"
+    tag = "c13"
+    profile = Profile(w=W(map_c=14, lift=16, hold=8, csink=6, updates=5, value=4, sloop=2, cloop=3, switch_c=3),
+                      p_sample=0.8, p_def_in_txn=0.25, listen_cells=0.6, n_txn=(4, 12))
+
+
+class C14(FrpProp):
+    pid = "C14"
+    tag = "c14"
+    profile = Profile(w=W(), p_block=0.9, p_nested=0.4, p_scoped=0.4, p_def_in_txn=0.2, n_txn=(4, 12))
+
+
+class C15(FrpProp):
+    pid = "C15"
+    tag = "c15"
+    profile = Profile(w=W(sink_co=8, csink=6, sink=6), max_sinks=5, p_block=0.9, p_nested=0.5, p_scoped=0.2,
+                      n_txn=(4, 12), p_sample=0.5)
+
+
+class C17(FrpProp):
+    pid = "C17"
+    tag = "c17"
+    profile = Profile(w=W(hold_lazy=6, accum_lazy=4, map_c=8, lift=8, cloop=3, hold=6), p_lazy=0.7, p_sample=0.3,
+                      n_txn=(4, 14))
+
+
+class C18(FrpProp):
+    pid = "C18"
+    tag = "c18"
+    profile = Profile(w=W(router=12, filter=6), p_mem=0.2, p_def_in_txn=0.2, n_txn=(4, 12))
+
+
+class C06(FrpProp):
+    pid = "C06"
+    tag = "c06"
+    profile = Profile(w=W(sloop=4, cloop=4, switch_s=4, switch_c=4, accum=6, collect=5, defer=2, router=2), p_mem=0.7,
+                      n_txn=(5, 14), p_listen_late=0.3)
+
+
+class C07(FrpProp):
+    pid = "C07"
+    tag = "c07"
+    profile = Profile(w=W(sloop=4, cloop=4, switch_s=4, switch_c=4, accum=6, collect=5, defer=2, router=2), p_mem=0.3,
+                      n_txn=(0, 8), final_teardown=True)
+
+
+class C09(FrpProp):
+    pid = "C09"
+    tag = "c09"
+    profile = Profile(w=W(sloop=3, cloop=3, switch_s=3, switch_c=3, defer=2, split=2), p_mem=0.5, n_txn=(4, 10))
